@@ -237,6 +237,15 @@ fn eval(ctx: &Ctx, case: &Case) -> Verdict {
         ensure!(re.clean_failure() && re.stdout.is_empty(), "an empty samples file must be an error: {}", re.describe());
         let re = cli::sfs(ctx, &["create", "-s", "", &input], cli::Input::Null, &dir);
         ensure!(re.clean_failure() && re.stdout.is_empty(), "an empty inline sample list (`-s \"\"`) must be an error: {}", re.describe());
+        // the library's in-memory list (`Samples::List`), which the command line cannot make empty
+        let empty = MapSpec { entries: vec![], labels: vec![], as_file: false };
+        for project in [None, Some(&[][..])] {
+            match crate::props::c11::build_reader(&case.cs, &case.cs.records, &empty, project) {
+                Err(f) if f.message.starts_with("site reader builder failed") => {}
+                Err(f) => return Err(f),
+                Ok(_) => fail!("an empty sample list (`Samples::List(vec![])`, projection {project:?}) must be an error, but `site::reader::Builder::build` returned a reader for the {} samples of the input", case.cs.samples.len()),
+            }
+        }
     }
 
     let identity = case.col_perm.iter().enumerate().all(|(i, p)| i == *p);
@@ -259,7 +268,7 @@ fn eval(ctx: &Ctx, case: &Case) -> Verdict {
 pub fn check(ctx: &Ctx) -> Check {
     let parts: Vec<Box<dyn Part>> = vec![Box::new(RandomPart {
         name: "axes-and-permutations",
-        rule: "call sets x duplicate-free sample lists (subset, order, named/unnamed mix, 1..4 labels) x a permutation of the input's sample columns x two permutations of the list: absolute (reference model: axes in first-appearance order, lengths 2*count+1, exact values) and metamorphic, all byte-identical stdout: permuted sample columns, list permuted keeping the label order, --samples vs --samples-file; a list permutation changing the label order by pi must give the baseline with axes transposed by pi; the samples file also without final newline, with CRLF (complete, cut after the last CR, cut before it), and read from a pipe (`-S /dev/stdin`); a record with a missing and a non-diploid listed sample fails the run in every column order; ghost sample (alone, and with a projection / --strict -q) and empty samples file are errors; ~11 runs per case; non-trivial = >=2 labels with different sample counts and a non-identity column permutation",
+        rule: "call sets x duplicate-free sample lists (subset, order, named/unnamed mix, 1..4 labels) x a permutation of the input's sample columns x two permutations of the list: absolute (reference model: axes in first-appearance order, lengths 2*count+1, exact values) and metamorphic, all byte-identical stdout: permuted sample columns, list permuted keeping the label order, --samples vs --samples-file; a list permutation changing the label order by pi must give the baseline with axes transposed by pi; the samples file also without final newline, with CRLF (complete, cut after the last CR, cut before it), and read from a pipe (`-S /dev/stdin`); a record with a missing and a non-diploid listed sample fails the run in every column order; ghost sample (alone, and with a projection / --strict -q), empty samples file, empty inline list and the library's empty `Samples::List` (with and without a projection) are errors; ~11 runs per case; non-trivial = >=2 labels with different sample counts and a non-identity column permutation",
         cases: ctx.tier.pick(2000, 60_000),
         strategy: Box::new(|| strategy().boxed()),
         eval: Box::new(eval),
